@@ -7,6 +7,7 @@ package harness
 import (
 	"fmt"
 	"math/big"
+	"strings"
 )
 
 type Labeler struct{}
@@ -84,10 +85,12 @@ func (Labeler) After(x *Exec, op *Op, res *Res) {
 			}
 		}
 	}
-	// an aborted slash callback (listed findings F-C08b / F-C05a / F-C04a) leaves the slash
-	// half-applied — asset totals reduced, validator records not, or the other way round: the
-	// accounting of the slashed validator's assets is not judged afterwards
-	if (op.K == KSlash || op.K == KSlashHook) && x.L.LastSlashHookErr != "" {
+	// a slash callback that aborts inside SlashValidator's loop over the validator's assets (it
+	// meets shares of a deleted, overdrawn asset: listed finding F-C04a) has reduced the totals of
+	// the assets before it without writing the validator's record: their accounting is not judged
+	// afterwards. (An abort later in the callback — a claim that cannot be paid — happens after
+	// the record was written and leaves the share ledgers consistent.)
+	if (op.K == KSlash || op.K == KSlashHook) && strings.Contains(x.L.LastSlashHookErr, "not whitelisted") {
 		for _, dn := range sortedKeys(pre.Vals[op.V].ValShares) {
 			x.OverdrawnSeen[dn] = true
 		}
